@@ -17,6 +17,8 @@ import ast
 import asyncio
 import inspect
 import logging
+import os
+import sys
 import textwrap
 import warnings
 
@@ -41,22 +43,27 @@ class Injected(Exception):
     """a broadcast failure that is NOT one of the tolerated kinds"""
 
 
+_TOLERATED = None
+
+
 def tolerated_classes():
-    """the exception classes named in the `except` clauses of Process.on_entered, resolved in plumpy.processes (as gen_tables does)"""
-    import plumpy.processes as pp
-    tree = ast.parse(textwrap.dedent(inspect.getsource(pp.Process.on_entered)))
-    out = {}
-    for node in ast.walk(tree):
-        if isinstance(node, ast.ExceptHandler) and node.type is not None:
-            for n in (node.type.elts if isinstance(node.type, ast.Tuple) else [node.type]):
-                src = ast.unparse(n)
-                try:
-                    cls = eval(src, vars(pp))  # noqa: S307 (names of the module under test)
-                except Exception:  # noqa
-                    continue
-                if isinstance(cls, type) and issubclass(cls, BaseException):
-                    out[src.split('.')[-1]] = cls
-    return out
+    global _TOLERATED
+    if _TOLERATED is None:
+        _TOLERATED = _probe_tolerated_classes()
+    return dict(_TOLERATED)
+
+
+def _probe_tolerated_classes():
+    """the exception classes plumpy tolerates as failures of the state-change broadcast, by name (PROBED as gen_tables does: a
+    trivial process must survive the failure; no source is read)"""
+    import plumpy
+    sys.path.insert(0, os.path.dirname(os.path.abspath(__file__)))
+    import gen_comms
+    cands = gen_comms.failure_candidates()
+    names = gen_comms.probe_tolerated(plumpy)
+    if names is None:
+        names = list(property_kinds())
+    return {n: cands[n] for n in names if n in cands}
 
 
 def property_kinds():
@@ -810,3 +817,6 @@ def strip_events(res):
     for ev in res.get('events', []):
         ev.pop('handler_ret', None)
     return res
+
+
+tolerated_classes()     # probed once, at import: never from inside a running event loop (worker processes inherit it by fork)
